@@ -95,3 +95,10 @@ Qed.
 
 Example fob_history_order : ord_inv P0 (st_coll (reach P0 ops_fob)).
 Proof. apply (@reachable_order P0 P0_ok). exact fob_history_is_small. Qed.
+
+(** AllocHistory: the three-push history above allocates 5 times (two groups: slot array + waker
+    block each, and one growth of the Vec of groups) with a peak of 3 children *)
+From FB Require Import AllocProofs AllocHistory.
+Example allocations_of_a_small_history :
+  list_sum (run_allocs P0 init_state ops_pending) = 5 /\ run_peak P0 init_state ops_pending = 3.
+Proof. vm_compute. split; reflexivity. Qed.
